@@ -38,12 +38,9 @@ theorem escapedPath_nil (d : Bytes) (hs : d ≠ ['*']) : escapedPath d [] = esca
 theorem head_slash_ne_star (d : Bytes) (h : d.head? = some '/') : d ≠ ['*'] := by
   intro e; subst e; simp at h
 
-/-- the spelling Go's server and `extractURL` hand on: the client's own if it is a valid encoding, else the canonical one -/
-def normPath (p : Bytes) : Bytes :=
-  if validEncodedPath p then p else escapePath ((pathUnescapeL p).getD [])
-
-theorem escapedPath_setPath (p path raw : Bytes) (hs : p.head? = some '/') (h : setPath p = some (path, raw)) :
-    pathUnescapeL p = some path ∧ escapedPath path raw = normPath p := by
+/-- heimdall's `escapedPath` on what Go's server parsed: the client's spelling with the forbidden octets encoded -/
+theorem clientPath_setPath (p path raw : Bytes) (hs : p.head? = some '/') (h : setPath p = some (path, raw)) :
+    pathUnescapeL p = some path ∧ clientPath path raw = escapeInvalid p := by
   unfold setPath at h
   cases hd : pathUnescapeL p with
   | none => simp [hd] at h
@@ -59,42 +56,21 @@ theorem escapedPath_setPath (p path raw : Bytes) (hs : p.head? = some '/') (h : 
         simp only [List.head?_cons, Option.some.injEq] at hs
         subst hs
         exact head_slash_ne_star d (pathUnescapeL_head_slash t d hd)
-    unfold normPath
+    unfold clientPath
     by_cases he : escapePath d = p
     · simp only [he, if_true] at h2
       subst h2
+      simp only [if_true]
       rw [escapedPath_nil d hstar, he]
       have : validEncodedPath p = true := by rw [← he]; exact validEncodedPath_escapePath d
-      simp [this]
+      exact (escapeInvalid_id p this).symm
     · simp only [he, if_false] at h2
       subst h2
       have hne : p ≠ [] := by intro e; subst e; simp at hs
-      by_cases hv : validEncodedPath p = true
-      · rw [escapedPath_keep d p hne hv hd]; simp [hv]
-      · unfold escapedPath
-        simp [hv, hstar, hd]
+      simp [hne]
 
-theorem normPath_decodes (p d : Bytes) (hd : pathUnescapeL p = some d) : pathUnescapeL (normPath p) = some d := by
-  unfold normPath
-  split
-  · exact hd
-  · simp [hd, pathUnescapeL_escapePath]
-
-theorem normPath_valid (p : Bytes) : validEncodedPath (normPath p) = true := by
-  unfold normPath
-  split
-  · assumption
-  · exact validEncodedPath_escapePath _
-
-theorem normPath_ne_nil (p d : Bytes) (hne : p ≠ []) (hd : pathUnescapeL p = some d) : normPath p ≠ [] := by
-  unfold normPath
-  split
-  · exact hne
-  · simp only [hd, Option.getD_some]
-    intro e
-    have := escapePath_eq_nil d e
-    subst this
-    exact hne (pathUnescapeL_eq_nil p hd)
+theorem escapeInvalid_ne_nil (p : Bytes) (hne : p ≠ []) : escapeInvalid p ≠ [] :=
+  fun e => hne (escapeInvalid_eq_nil p e)
 
 /-! ### `URLRewriter.Rewrite` -/
 
